@@ -632,7 +632,13 @@ func (c *checker) byzMessages(g *gstate) []*vmsg {
 				if sc.leader(r) == b && r == 1 {
 					add(c.tbl.mk(MsgPrePrepare, b, r, v, 0, 0, nil))
 				}
-				if sc.leader(r) != b && r == 1 && v == sc.values[0] && !sc.noForge {
+				if sc.leader(r) == b && r == 1 && v == sc.values[0] && !sc.noForge {
+					// the empty value, proposed and voted for by the coalition
+					add(c.tbl.mk(MsgPrePrepare, b, r, 0, 0, 0, nil))
+					add(c.tbl.mk(MsgPrepare, b, r, 0, 0, 0, nil))
+					add(c.tbl.mk(MsgCommit, b, r, 0, 0, 0, nil))
+				}
+				if sc.leader(r) != b && r == 1 && v == sc.values[len(sc.values)-1] && !sc.noForge {
 					add(c.tbl.mk(MsgPrePrepare, b, r, v, 0, 0, nil)) // proposal from a non-leader
 				}
 				// DECIDED from available commits: genuine quorum, and forgeries
@@ -1303,6 +1309,7 @@ func c02scenarios() []*scenario {
 	v12 := []int64{1, 2}
 	// Byzantine leader of round 1 / round 2 / non-leader, n=4 (members 0..3, leader(r) = (r-1) mod n)
 	add("n4-byz-leader1-R1-forge", 4, []int64{0}, in4b(), v12, 1, opt{})
+	add("n4-byz-nonleader-R1-forge", 4, []int64{3}, in4b(), v12, 1, opt{})
 	add("n4-byz-leader2-R2-strategy", 4, []int64{1}, in4b(), v12, 2, opt{noForge: true})
 	add("n4-byz-leader1-R2-strategy", 4, []int64{0}, in4b(), v12, 2, opt{noForge: true})
 	add("n4-distinct-R2", 4, nil, in4(), nil, 2, opt{})
